@@ -49,6 +49,7 @@ class RuleResult:
         self.obligations = []
         self.stats = {}
         self.notes = []
+        self.floor_failures = []
 
     def _add(self, status, site, construct, detail=None, reason=""):
         if isinstance(site, Func):
@@ -76,7 +77,9 @@ class RuleResult:
         confirmed by hand cannot be trusted to pass."""
         self.stats[name] = count
         if count < minimum:
-            raise AnalysisError(
+            # deferred: a rule that already found violations reports those; a rule that found none
+            # and matched too few instances cannot be trusted to pass (raised in Ctx.rule_result)
+            self.floor_failures.append(
                 f"rule {self.rule}: instance count '{name}' = {count} fell below the confirmed floor {minimum}")
 
     def stat(self, name, value):
@@ -114,6 +117,8 @@ class Ctx:
             fn, title = RULES[rule_id]
             res = RuleResult(rule_id, title)
             fn(self, res)
+            if res.floor_failures and not res.violations():
+                raise AnalysisError("; ".join(res.floor_failures))
             self._cache[key] = res
         return self._cache[key]
 
